@@ -204,8 +204,9 @@ def _is_named_tuple(t):
 
 
 def _is_unpack(t):
-    return typing.get_origin(t) is typing.Unpack or getattr(t, "__typing_is_unpacked_typevartuple__", False) or (
-        isinstance(t, types.GenericAlias) and getattr(t, "__unpacked__", False))
+    # faithful to helpers.is_unpack: only typing.Unpack[...] counts.  The starred builtin alias `*tuple[int, ...]`
+    # (types.GenericAlias with __unpacked__) has origin `tuple` and is NOT recognised by the library (R02.7 / R03.7).
+    return typing.get_origin(t) is typing.Unpack
 
 
 def _hashable_type(t):
@@ -213,6 +214,38 @@ def _hashable_type(t):
         return issubclass(_origin(t), collections.abc.Hashable)
     except TypeError:
         return True
+
+
+def _get_args_plain(t):
+    return tuple(getattr(t, "__args__", ()) or ())
+
+
+def _get_args_normalising(t):
+    args = _get_args_plain(t)
+    if any(getattr(a, "__unpacked__", False) for a in args):
+        args = tuple(typing.Unpack[a.__origin__[a.__args__]] if getattr(a, "__unpacked__", False) else a for a in args)
+    return args
+
+
+_GET_ARGS_FORMS = {
+    # canonical source text of helpers.get_args -> the stdlib-only model that stands for it in the simulation
+    "return getattr(typ, '__args__', ())": _get_args_plain,
+    "args = getattr(typ, '__args__', ())\n"
+    "if any((getattr(arg, '__unpacked__', False) for arg in args)):\n"
+    "    args = tuple((typing.Unpack[arg.__origin__[arg.__args__]] if getattr(arg, '__unpacked__', False) else arg for arg in args))\n"
+    "return args": _get_args_normalising,
+}
+
+
+def get_args_model(repo: Repo) -> Callable:
+    """helpers.get_args is summarised, not evaluated: the summary is chosen by the *form of the current source*.  An
+    unrecognised form is an analysis error (no verdict), never a silent fallback to an old summary."""
+    fi = repo.func(M_HELPERS, "get_args")
+    body = [st for st in fi.node.body if not (isinstance(st, ast.Expr) and isinstance(st.value, ast.Constant))]
+    text = "\n".join(ast.unparse(st) for st in body)
+    if text not in _GET_ARGS_FORMS:
+        raise AnalysisError("helpers.get_args has a form the dispatch simulation has no summary for:\n" + text)
+    return _GET_ARGS_FORMS[text]
 
 
 HELPER_MODEL: Dict[str, Callable] = {
@@ -311,7 +344,9 @@ class Dispatcher:
             (r"raises\[TypeError\]@", False), (r"raises\[suppress\(TypeError\)\]", False),
             (r"^bool\(spec\.field_ctx\.name\)$", True), (r"^bool\(B\.dialect\)$", False), (r"^bool\(B\.default_dialect\)$", False),
         ] + list(extra_assume)
-        models = {f"{M_HELPERS}::{k}": self._helper(k, f) for k, f in HELPER_MODEL.items()}
+        hm = dict(HELPER_MODEL)
+        hm["get_args"] = get_args_model(repo)
+        models = {f"{M_HELPERS}::{k}": self._helper(k, f) for k, f in hm.items()}
         models[f"{M_PACK}::get_overridden_serialization_method"] = lambda pe, fv, a, kw, p, e: [(Const(None), p)]
         models[f"{M_UNPACK}::get_overridden_deserialization_method"] = lambda pe, fv, a, kw, p, e: [(Const(None), p)]
         models[f"{M_HELPERS}::resolve_type_params"] = lambda pe, fv, a, kw, p, e: [(Sym("RESOLVED_TYPE_PARAMS"), p)]
